@@ -127,7 +127,17 @@ def h_copy_chain(kind: int, node: int, val: Optional[str], bare: bool, which: in
     c1 = root.copy()
     c2 = c1.copy()
     c3 = other.copy()
-    trees = [root, c1, c2, other, c3]
+    c4 = root.copy()                      # the SAME node copied a second time
+    c5 = nodes(root)[-1].copy()           # and a subtree of it
+    trees = [root, c1, c2, other, c3, c4]
+    seen_ids = {}
+    for ti, t in enumerate(trees + [c5]):
+        for n in nodes(t):
+            if n.id in seen_ids:
+                return "node id %s is carried by nodes of tree %d and tree %d" % (n.id, seen_ids[n.id], ti)
+            seen_ids[n.id] = ti
+            if Node.get_node_instance(n.id) is not n:
+                return "id %s of tree %d is registered to another object" % (n.id, ti)
     victim = (c2, c1, c3)[which]
     n = nodes(victim)[node % len(nodes(victim))]
     before = [snap(t) for t in trees]
